@@ -46,3 +46,504 @@ def c17():
 
 
 CHECKS = {"C17": c17}
+
+
+# ----------------------------------------------------------------------------- shapes / environments
+ENUM_CFG = "INIT Init\nNEXT Next\n"
+
+
+def shapes(work):
+    out = work.path("shapes.json")
+    r = vlib.tlc("TypeEnum", ENUM_CFG, env={"VERIF_OUT": out}, workers=1, timeout=120, work=work)
+    if not os.path.exists(out):
+        print("HARNESS-ERROR TypeEnum failed", (r["error_text"] or r["out"][-500:])[:500])
+        raise SystemExit(2)
+    return json.load(open(out))
+
+
+def subterms(t, acc=None):
+    acc = [] if acc is None else acc
+    if t not in acc:
+        acc.append(t)
+    if t["k"] in ("send", "recv"):
+        subterms(t["l"], acc); subterms(t["r"], acc)
+    elif t["k"] in ("sel", "bra"):
+        for b in t["br"]:
+            subterms(b["t"], acc)
+    elif t["k"] in ("up", "down"):
+        subterms(t["t"], acc)
+    return acc
+
+
+def mode_of(t):
+    return t["to"] if t["k"] in ("up", "down") else t["mode"]
+
+
+def mentions(t, acc=None):
+    acc = set() if acc is None else acc
+    for s in subterms(t):
+        if s["k"] == "name":
+            acc.add(s["name"])
+    return acc
+
+
+def plausible(defs):
+    """cheap sampling filter only (raises the share of well-formed environments); the verdict is WellFormed!WF's"""
+    names = {d["name"]: d["t"] for d in defs}
+    for d in defs:
+        for s in subterms(d["t"]):
+            if s["k"] == "name":
+                if s["name"] not in names or mode_of(names[s["name"]]) != s["mode"]:
+                    return False
+    # contractive: no alias cycle
+    for d in defs:
+        seen, t = set(), d["t"]
+        while t["k"] == "name":
+            if t["name"] in seen:
+                return False
+            seen.add(t["name"])
+            t = names[t["name"]]
+    return True
+
+
+CURATED_EQ = [
+    # alias chains (F1), two equivalent recursive names (F2), unrolled variants, branch order
+    [("A", {"k": "name", "name": "B", "mode": "rep"}), ("B", {"k": "unit", "mode": "rep"})],
+    [("A", {"k": "name", "name": "B", "mode": "rep"}), ("B", {"k": "name", "name": "C", "mode": "rep"}), ("C", {"k": "send", "l": {"k": "unit", "mode": "rep"}, "r": {"k": "unit", "mode": "rep"}, "mode": "rep"})],
+    [("A", {"k": "sel", "br": [{"label": "l", "t": {"k": "name", "name": "A", "mode": "rep"}}], "mode": "rep"}),
+     ("B", {"k": "sel", "br": [{"label": "l", "t": {"k": "name", "name": "B", "mode": "rep"}}], "mode": "rep"})],
+    [("A", {"k": "sel", "br": [{"label": "l", "t": {"k": "name", "name": "A", "mode": "rep"}}], "mode": "rep"}),
+     ("B", {"k": "sel", "br": [{"label": "l", "t": {"k": "sel", "br": [{"label": "l", "t": {"k": "name", "name": "B", "mode": "rep"}}], "mode": "rep"}}], "mode": "rep"})],
+    [("A", {"k": "send", "l": {"k": "unit", "mode": "rep"}, "r": {"k": "name", "name": "A", "mode": "rep"}, "mode": "rep"}),
+     ("B", {"k": "send", "l": {"k": "unit", "mode": "rep"}, "r": {"k": "name", "name": "A", "mode": "rep"}, "mode": "rep"}),
+     ("C", {"k": "recv", "l": {"k": "unit", "mode": "rep"}, "r": {"k": "name", "name": "C", "mode": "rep"}, "mode": "rep"})],
+    [("A", {"k": "sel", "br": [{"label": "l", "t": {"k": "unit", "mode": "rep"}}, {"label": "r", "t": {"k": "name", "name": "A", "mode": "rep"}}], "mode": "rep"}),
+     ("B", {"k": "sel", "br": [{"label": "r", "t": {"k": "name", "name": "B", "mode": "rep"}}, {"label": "l", "t": {"k": "unit", "mode": "rep"}}], "mode": "rep"}),
+     ("C", {"k": "sel", "br": [{"label": "l", "t": {"k": "unit", "mode": "rep"}}, {"label": "r", "t": {"k": "name", "name": "B", "mode": "rep"}}], "mode": "rep"})],
+    [("A", {"k": "up", "from": "lin", "to": "rep", "t": {"k": "name", "name": "B", "mode": "lin"}}),
+     ("B", {"k": "down", "from": "rep", "to": "lin", "t": {"k": "name", "name": "A", "mode": "rep"}}),
+     ("C", {"k": "up", "from": "lin", "to": "rep", "t": {"k": "down", "from": "rep", "to": "lin", "t": {"k": "name", "name": "C", "mode": "rep"}}})],
+]
+
+
+def make_envs(sh, n, rng, pool="full", names=("A", "B", "C"), exhaustive=False):
+    S = sh[pool]
+    envs = []
+    if exhaustive:
+        S2 = [s for s in S if mentions(s) <= set(names)]
+        for combo in itertools.product(S2, repeat=len(names)):
+            defs = [{"name": nm, "t": t} for nm, t in zip(names, combo)]
+            if plausible(defs):
+                envs.append(defs)
+        return envs
+    tries = 0
+    while len(envs) < n and tries < n * 400:
+        tries += 1
+        defs = [{"name": nm, "t": rng.choice(S)} for nm in names]
+        if plausible(defs):
+            envs.append(defs)
+    return envs
+
+
+def queries_for(defs, rng, limit=7):
+    terms = []
+    for d in defs:
+        terms.append({"k": "name", "name": d["name"], "mode": mode_of(d["t"])})
+    for d in defs:
+        for s in subterms(d["t"]):
+            if s not in terms:
+                terms.append(s)
+    if len(terms) > limit:
+        head = terms[:len(defs)]
+        rest = terms[len(defs):]
+        rng.shuffle(rest)
+        terms = head + rest[:limit - len(defs)]
+    return [(a, b) for a in terms for b in terms]
+
+
+EQ_CFG = """SPECIFICATION Spec
+INVARIANTS CaseOK IsEquivalence UnrollInvariant
+CHECK_DEADLOCK FALSE
+"""
+
+
+def c08():
+    t0 = time.time()
+    tr = vlib.tier()
+    rng = random.Random(vlib.seed())
+    vlib.build(("vworker",))
+    v = vlib.Verdict("C08")
+    with vlib.Work("c08") as work:
+        sh = shapes(work)
+        envs = [[{"name": n, "t": t} for n, t in e] for e in CURATED_EQ]
+        if tr == "quick":
+            envs += make_envs(sh, 260, rng, "full")
+            envs += make_envs(sh, 0, rng, "small", names=("A", "B"), exhaustive=True)[:400]
+        else:
+            envs += make_envs(sh, 4000, rng, "full")
+            envs += make_envs(sh, 0, rng, "small", names=("A", "B"), exhaustive=True)
+            envs += make_envs(sh, 3000, rng, "small")
+        # real calls
+        cases = []
+
+        def run_chunk(chunk):
+            w = vlib.Worker(timeout=10)
+            out = []
+            for defs in chunk:
+                qs = queries_for(defs, random.Random(len(out)))
+                r = w.call({"op": "eq", "defs": defs, "queries": [[a, b] for a, b in qs]})
+                if "results" in r:
+                    rets = ["true" if x else "false" for x in r["results"]]
+                    out.append({"defs": defs, "queries": [{"a": a, "b": b, "ret": x} for (a, b), x in zip(qs, rets)], "wfreal": r.get("wf")})
+                else:
+                    # find one offending query (each crash may cost seconds: stop at the first)
+                    kind = "hang" if r.get("hang") else "crash"
+                    qq = []
+                    found = False
+                    for a, b in qs:
+                        if found:
+                            break
+                        r1 = w.call({"op": "eq", "defs": defs, "queries": [[a, b]]})
+                        if "results" in r1:
+                            qq.append({"a": a, "b": b, "ret": "true" if r1["results"][0] else "false"})
+                        else:
+                            found = True
+                            qq.append({"a": a, "b": b, "ret": "hang" if r1.get("hang") else "crash", "detail": (r1.get("crash") or "")[:200]})
+                    if not found:
+                        qq.append({"a": qs[0][0], "b": qs[0][1], "ret": kind, "detail": "only the whole batch fails"})
+                    out.append({"defs": defs, "queries": qq, "wfreal": None})
+            w.stop()
+            return out
+
+        import concurrent.futures
+        chunks = rt_chunks(envs, vlib.NCPU)
+        with concurrent.futures.ThreadPoolExecutor(max_workers=vlib.NCPU) as ex:
+            for out in ex.map(run_chunk, chunks):
+                cases += out
+        ncalls = sum(len(c["queries"]) for c in cases)
+        # TLC validation of the call log, in parallel chunks
+        states = gen = 0
+        failures = []
+
+        def validate(k_chunk):
+            k, chunk = k_chunk
+            todo = list(chunk)
+            st = ge = 0
+            fails = []
+            while todo:
+                p = work.path("cases_%d_%d.json" % (k, len(todo)))
+                json.dump([{"defs": c["defs"], "queries": [{"a": q["a"], "b": q["b"], "ret": q["ret"]} for q in c["queries"]]} for c in todo], open(p, "w"))
+                r = vlib.tlc("TypeEq", EQ_CFG, env={"VERIF_CASES": p}, workers=1, timeout=1200, work=work)
+                os.remove(p)
+                st += r["distinct"]; ge += r["generated"]
+                if r["ok"]:
+                    break
+                if r["violated"]:
+                    i = int(vlib.last_state_vars(r["out"], ["i"]).get("i", "1"))
+                    fails.append((r["violated"], todo[i - 1]))
+                    todo = todo[i:]
+                else:
+                    fails.append(("tlc-error", {"error": (r["error_text"] or "timeout")[:800]}))
+                    break
+            return st, ge, fails
+
+        vchunks = list(enumerate(rt_chunks(cases, vlib.NCPU)))
+        with concurrent.futures.ThreadPoolExecutor(max_workers=vlib.NCPU) as ex:
+            for st, ge, fails in ex.map(validate, vchunks):
+                states += st; gen += ge; failures += fails
+        for inv, case in failures:
+            if inv == "tlc-error":
+                v.harness_errors.append("TypeEq: " + case["error"])
+                continue
+            if inv != "CaseOK":
+                v.harness_errors.append("specification theorem %s fails on %s" % (inv, json.dumps(case["defs"])[:300]))
+                continue
+            bad = [q for q in case["queries"] if q["ret"] in ("crash", "hang")]
+            kind = "does not return (%s)" % bad[0]["ret"] if bad else "disagrees with bisimilarity"
+            sig = {"kind": "noreturn" if bad else "wrong", "alias_env": any(d["t"]["k"] == "name" for d in case["defs"])}
+            v.violation("EqualType %s for environment %s" % (kind, type_env_text(case["defs"])), {"case": case}, sig)
+        cov = {"states": max(1, states), "transitions": max(1, gen), "traces_validated_against_impl": len(cases) - len([f for f in failures if f[0] == "CaseOK"]),
+               "samples": [{"env": type_env_text(c["defs"]), "calls": len(c["queries"])} for c in cases[:4]],
+               "environments": len(cases), "equaltype_calls_logged": ncalls, "shape_sets": {k: len(x) for k, x in sh.items()},
+               "theorems_checked_per_environment": ["IsEquivalence", "UnrollInvariant"]}
+        vlib.write_evidence("C08", "model_checking", cov, time.time() - t0, len(v.violations),
+                            ["environments over at most 3 names built from the shape grammar of TypeEnum.tla (curated + exhaustive 2-name + seeded sample)",
+                             "well-formedness of the inputs is WellFormed!WF"])
+    return v.finish()
+
+
+def rt_chunks(xs, n):
+    k = max(1, (len(xs) + n - 1) // n)
+    return [xs[i:i + k] for i in range(0, len(xs), k)]
+
+
+def type_text(t):
+    k = t["k"]
+    if k == "unit":
+        return "1"
+    if k == "name":
+        return t["name"]
+    if k == "send":
+        return "(%s * %s)" % (type_text(t["l"]), type_text(t["r"]))
+    if k == "recv":
+        return "(%s -* %s)" % (type_text(t["l"]), type_text(t["r"]))
+    if k in ("sel", "bra"):
+        return ("+" if k == "sel" else "&") + "{" + ", ".join("%s : %s" % (b["label"], type_text(b["t"])) for b in t["br"]) + "}"
+    if k == "up":
+        return "(%s /\\ %s %s)" % (t["from"], t["to"], type_text(t["t"]))
+    if k == "down":
+        return "(%s \\/ %s %s)" % (t["from"], t["to"], type_text(t["t"]))
+    return "?"
+
+
+def type_env_text(defs):
+    return "; ".join("type %s = %s %s" % (d["name"], mode_of(d["t"]), type_text(d["t"])) for d in defs)
+
+
+CHECKS["C08"] = c08
+
+
+# ----------------------------------------------------------------------------- C10 / C16
+def strip_modes(t):
+    k = t["k"]
+    if k == "unit":
+        return {"k": "unit", "mode": ""}
+    if k == "name":
+        return {"k": "name", "name": t["name"], "mode": ""}
+    if k in ("send", "recv"):
+        return {"k": k, "l": strip_modes(t["l"]), "r": strip_modes(t["r"]), "mode": ""}
+    if k in ("sel", "bra"):
+        return {"k": k, "br": [{"label": b["label"], "t": strip_modes(b["t"])} for b in t["br"]], "mode": ""}
+    return {"k": k, "from": t["from"], "to": t["to"], "t": strip_modes(t["t"])}
+
+
+def written_text(d):
+    body = type_text(d["t"])
+    if d["ann"]:
+        return "type %s = %s %s" % (d["name"], d["ann"], body)
+    return "type %s = %s" % (d["name"], body)
+
+
+CURATED_W = [
+    [("A", "", {"k": "sel", "br": [{"label": "a", "t": {"k": "unit", "mode": ""}}, {"label": "a", "t": {"k": "recv", "l": {"k": "unit", "mode": ""}, "r": {"k": "unit", "mode": ""}, "mode": ""}}], "mode": ""})],   # F3
+    [("A", "aff", {"k": "up", "from": "mul", "to": "mul", "t": {"k": "unit", "mode": ""}})],   # F15
+    [("A", "", {"k": "name", "name": "B", "mode": ""}), ("A", "", {"k": "name", "name": "A", "mode": ""})],
+    [("A", "", {"k": "name", "name": "B", "mode": ""}), ("B", "", {"k": "name", "name": "C", "mode": ""}), ("C", "", {"k": "name", "name": "A", "mode": ""})],
+    [("A", "lin", {"k": "send", "l": {"k": "name", "name": "B", "mode": ""}, "r": {"k": "unit", "mode": ""}, "mode": ""}), ("B", "", {"k": "unit", "mode": ""})],
+    [("A", "lin", {"k": "send", "l": {"k": "name", "name": "B", "mode": ""}, "r": {"k": "unit", "mode": ""}, "mode": ""}), ("B", "lin", {"k": "unit", "mode": ""})],
+    [("A", "", {"k": "send", "l": {"k": "name", "name": "B", "mode": ""}, "r": {"k": "unit", "mode": ""}, "mode": ""}), ("B", "lin", {"k": "unit", "mode": ""})],
+    [("A", "", {"k": "recv", "l": {"k": "down", "from": "rep", "to": "lin", "t": {"k": "unit", "mode": ""}}, "r": {"k": "name", "name": "A", "mode": ""}, "mode": ""})],
+    [("A", "", {"k": "up", "from": "lin", "to": "rep", "t": {"k": "name", "name": "B", "mode": ""}}), ("B", "", {"k": "down", "from": "rep", "to": "lin", "t": {"k": "name", "name": "A", "mode": ""}})],
+    [("A", "bogus", {"k": "unit", "mode": ""})],
+    [("A", "", {"k": "sel", "br": [{"label": "l", "t": {"k": "name", "name": "A", "mode": ""}}], "mode": ""}), ("B", "aff", {"k": "bra", "br": [{"label": "l", "t": {"k": "name", "name": "B", "mode": ""}}], "mode": ""})],
+]
+
+
+def make_written(sh, n, rng):
+    pool = [strip_modes(s) for s in sh["full"]]
+    # de-duplicate after stripping
+    seen, P = set(), []
+    for s in pool:
+        key = json.dumps(s, sort_keys=True)
+        if key not in seen:
+            seen.add(key); P.append(s)
+    ill = [strip_modes(s) if s["k"] in ("up", "down") else s for s in sh["ill"]]
+    anns = ["", "", "", "rep", "lin", "aff", "mul"]
+    out = []
+    for _ in range(n):
+        k = rng.choice([1, 2, 2, 3, 3, 3])
+        names = [rng.choice(["A", "B", "C"]) for _ in range(k)] if rng.random() < 0.1 else rng.sample(["A", "B", "C"], k)
+        defs = []
+        for nm in names:
+            r = rng.random()
+            if r < 0.08:
+                t = strip_modes_keep_bogus(rng.choice(ill))
+            else:
+                t = rng.choice(P)
+            ann = rng.choice(anns) if rng.random() < 0.97 else "bogus"
+            defs.append({"name": nm, "ann": ann, "t": t})
+        out.append(defs)
+    return out
+
+
+def strip_modes_keep_bogus(t):
+    # ill shapes carry deliberately mixed modes; written types cannot express inner modes, so only shifts / names survive
+    return strip_modes(t)
+
+
+def smart_written(sh, n, rng):
+    """environments biased towards acceptance: all names defined, annotation from the fixing component or free"""
+    pool = []
+    seen = set()
+    for s in sh["full"]:
+        w = strip_modes(s)
+        key = json.dumps(w, sort_keys=True)
+        if key not in seen:
+            seen.add(key); pool.append(w)
+    out = []
+    tries = 0
+    while len(out) < n and tries < 200 * n:
+        tries += 1
+        names = ["A", "B", "C"][:rng.choice([1, 2, 3, 3])]
+        defs = [{"name": nm, "ann": rng.choice(["", "", "rep", "lin", "aff", "mul"]), "t": rng.choice(pool)} for nm in names]
+        if all(mentions(d["t"]) <= set(names) for d in defs):
+            out.append(defs)
+    return out
+
+
+DEFS_CFG = """SPECIFICATION Spec
+INVARIANTS %s
+CHECK_DEADLOCK FALSE
+"""
+
+_types_cache = {}
+
+
+def types_campaign():
+    key = (vlib.tier(), vlib.seed())
+    if key in _types_cache:
+        return _types_cache[key]
+    tr = vlib.tier()
+    rng = random.Random(vlib.seed() * 7919 + 1)
+    vlib.build(("vworker",))
+    work = vlib.Work("tdefs")
+    sh = shapes(work)
+    W = [[{"name": n, "ann": a, "t": t} for n, a, t in e] for e in CURATED_W]
+    nrand, nsmart = (250, 450) if tr == "quick" else (3000, 6000)
+    W += make_written(sh, nrand, rng) + smart_written(sh, nsmart, rng)
+    cases = []
+
+    def run_chunk(chunk):
+        w = vlib.Worker(timeout=10)
+        out = []
+        for defs in chunk:
+            text = "\n".join(written_text(d) for d in defs) + "\n"
+            r = w.call({"op": "check", "text": text, "dump": True, "grace_ms": 0})
+            c = {"w": defs, "text": text, "modes": [], "unfold": []}
+            if r.get("hang"):
+                c["verdict"] = "hang"
+            elif "crash" in r or "panic" in r:
+                c["verdict"] = "crash"; c["detail"] = (r.get("crash") or r.get("panic") or "")[:300]
+            elif r.get("parse") != "ok":
+                c["verdict"] = "parse-error"; c["detail"] = r.get("parse", "")[:200]
+            elif r.get("tc") == "ok":
+                c["verdict"] = "accept"
+                c["modes"] = r["dump"]["types"]
+                c["unfold"] = r.get("unfold") or []
+            else:
+                c["verdict"] = "reject"; c["detail"] = r.get("tc", "")[:200]
+            out.append(c)
+        w.stop()
+        return out
+
+    import concurrent.futures
+    with concurrent.futures.ThreadPoolExecutor(max_workers=vlib.NCPU) as ex:
+        for out in ex.map(run_chunk, rt_chunks(W, vlib.NCPU)):
+            cases += out
+    res = {"work": work, "cases": cases, "shapes": {k: len(x) for k, x in sh.items()}}
+    _types_cache[key] = res
+    return res
+
+
+def validate_cases(work, spec, cfg, cases, proj):
+    """run the call-log validation spec over the cases in parallel chunks; returns (states, generated, failures[(inv, case)])"""
+    import concurrent.futures
+    states = gen = 0
+    failures = []
+
+    def validate(k_chunk):
+        k, chunk = k_chunk
+        todo = list(chunk)
+        st = ge = 0
+        fails = []
+        while todo:
+            p = work.path("cases_%s_%d_%d.json" % (spec, k, len(todo)))
+            json.dump([proj(c) for c in todo], open(p, "w"))
+            r = vlib.tlc(spec, cfg, env={"VERIF_CASES": p}, workers=1, timeout=1500, work=work)
+            os.remove(p)
+            st += r["distinct"]; ge += r["generated"]
+            if r["ok"]:
+                break
+            if r["violated"]:
+                i = int(vlib.last_state_vars(r["out"], ["i"]).get("i", "1"))
+                fails.append((r["violated"], todo[i - 1]))
+                todo = todo[i:]
+            else:
+                fails.append(("tlc-error", {"error": (r["error_text"] or "timeout")[:800]}))
+                break
+        return st, ge, fails
+
+    with concurrent.futures.ThreadPoolExecutor(max_workers=vlib.NCPU) as ex:
+        for st, ge, fails in ex.map(validate, list(enumerate(rt_chunks(cases, vlib.NCPU)))):
+            states += st; gen += ge; failures += fails
+    return states, gen, failures
+
+
+def c10():
+    t0 = time.time()
+    v = vlib.Verdict("C10")
+    camp = types_campaign()
+    cases = [c for c in camp["cases"] if c["verdict"] != "parse-error"]
+    proj = lambda c: {"w": c["w"], "verdict": c["verdict"], "modes": c["modes"], "unfold": c["unfold"]}
+    st, ge, fails = validate_cases(camp["work"], "TypeDefs", DEFS_CFG % "VerdictOK UnfoldOK", cases, proj)
+    for inv, c in fails:
+        if inv == "tlc-error":
+            v.harness_errors.append("TypeDefs: " + c["error"]); continue
+        dup_label = any(len({b["label"] for b in s["br"]}) < len(s["br"]) for d in c["w"] for s in subterms(d["t"]) if s["k"] in ("sel", "bra"))
+        ann_shift = any(d["ann"] and d["t"]["k"] in ("up", "down") and d["ann"] != d["t"]["to"] for d in c["w"])
+        sig = {"inv": inv, "verdict": c["verdict"], "duplicate_label": dup_label, "annotated_shift": ann_shift}
+        v.violation("%s: front end says %s for: %s %s" % (inv, c["verdict"], c["text"].replace("\n", " ; ")[:200], c.get("detail", "")), {"case": c}, sig)
+    acc = sum(1 for c in cases if c["verdict"] == "accept")
+    cov = {"states": max(1, st), "transitions": max(1, ge), "traces_validated_against_impl": len(cases) - len(fails),
+           "samples": [{"text": c["text"], "verdict": c["verdict"]} for c in cases[:3] + cases[-2:]],
+           "definition_sets": len(cases), "accepted": acc, "rejected": sum(1 for c in cases if c["verdict"] == "reject"),
+           "parse_errors_skipped": len(camp["cases"]) - len(cases), "shape_sets": camp["shapes"]}
+    vlib.write_evidence("C10", "model_checking", cov, time.time() - t0, len(v.violations),
+                        ["definition sequences of length <= 3 over the shape grammar of TypeEnum.tla (+ ill-formed shapes, duplicates, undefined references, contradicting annotations), rendered to text and passed through the real parser and Typecheck"])
+    return v.finish()
+
+
+def c16():
+    t0 = time.time()
+    v = vlib.Verdict("C16")
+    camp = types_campaign()
+    cases = [c for c in camp["cases"] if c["verdict"] == "accept"]
+    proj = lambda c: {"w": c["w"], "verdict": c["verdict"], "modes": c["modes"], "unfold": c["unfold"]}
+    st, ge, fails = validate_cases(camp["work"], "TypeDefs", DEFS_CFG % "InferenceOK AnnotationStable OrderIndependent", cases, proj)
+    for inv, c in fails:
+        if inv == "tlc-error":
+            v.harness_errors.append("TypeDefs: " + c["error"]); continue
+        if inv != "InferenceOK":
+            v.harness_errors.append("specification theorem %s fails on %s" % (inv, c["text"][:200])); continue
+        v.violation("modes assigned by the front end differ from the specified inference for: %s" % c["text"].replace("\n", " ; ")[:240], {"case": c},
+                    {"inv": inv})
+    # metamorphic on the real code: permuting declarations / writing the inferred annotation leaves verdict and modes unchanged
+    rng = random.Random(vlib.seed())
+    w = vlib.Worker(timeout=10)
+    meta = 0
+    for c in rng.sample(cases, min(len(cases), 150 if vlib.tier() == "quick" else 1500)):
+        base = {m["name"]: m for m in c["modes"]}
+        variants = []
+        perm = list(c["w"]); rng.shuffle(perm)
+        variants.append(("permuted", perm))
+        expl = [dict(d, ann=(d["ann"] if d["t"]["k"] in ("up", "down") else base[d["name"]]["mode"])) for d in c["w"]]
+        variants.append(("explicit-annotation", expl))
+        for kind, defs in variants:
+            text = "\n".join(written_text(d) for d in defs) + "\n"
+            r = w.call({"op": "check", "text": text, "dump": True})
+            meta += 1
+            ok = r.get("tc") == "ok" and {m["name"]: m for m in r["dump"]["types"]} == base
+            if not ok:
+                v.violation("%s variant changes verdict or modes: %s  =>  %s" % (kind, c["text"].replace("\n", " ; ")[:150], text.replace("\n", " ; ")[:150]),
+                            {"original": c, "variant": text, "reply": {k: r.get(k) for k in ("parse", "tc", "crash")}}, {"kind": kind})
+    w.stop()
+    cov = {"states": max(1, st), "transitions": max(1, ge), "traces_validated_against_impl": len(cases) - len(fails),
+           "samples": [{"text": c["text"], "modes": c["modes"]} for c in cases[:2]],
+           "accepted_definition_sets": len(cases), "metamorphic_variants_run": meta, "shape_sets": camp["shapes"]}
+    vlib.write_evidence("C16", "model_checking", cov, time.time() - t0, len(v.violations),
+                        ["type definitions only (signatures / cut annotations go through the same AddMissingModalities; covered by the typing corpus)"])
+    return v.finish()
+
+
+CHECKS["C10"] = c10
+CHECKS["C16"] = c16
